@@ -119,10 +119,14 @@ const vFamilySize = 15
 // whose arbitrary pre-state ranges over the parser's *current* fields only.)
 func VHMarkupHistory() {
 	h := vParam("H", 1)
+	fam := vFamilySize
+	if vParam("NORAW", 0) != 0 {
+		fam-- // without the arbitrary 3-byte member (longer histories)
+	}
 	used := LineParser{}
 	var held, copies []*ParseResult
 	for i := 0; i < h; i++ {
-		r, err := used.ParseMarkup(vFamilyLine("hist"+vItoa(i), vChoose("hist"+vItoa(i)+".family", vFamilySize)))
+		r, err := used.ParseMarkup(vFamilyLine("hist"+vItoa(i), vChoose("hist"+vItoa(i)+".family", fam)))
 		if err == nil && r != nil {
 			held = append(held, r)
 			copies = append(copies, vCopyResult(r))
